@@ -1,4 +1,4 @@
-HOOKS_ENABLE = ("no hook is needed: checks annotate a scratch copy of /repo (Kani harness modules appended under #[cfg(kani)], "
+HOOKS_ENABLE = ("no hook is needed: checks annotate a scratch copy of /repo (Kani harness modules appended under #[cfg(kani)], native cross-check modules under #[cfg(test)], "
                 "Verus overlays woven into extracted text); the guard name is reserved (--cfg pkhuong_woodpile_verif)")
 HOOK_COMMITS = []
 NOTES = ("Contract-based deductive verification of the real code. exit 0 = every obligation carrying the property discharged; "
